@@ -7,7 +7,7 @@ from ..source import Unsupported, AnchorError, norm
 from ..xlate import Interp, Obj, ListV, DictV, Raised, FuncRef, BoundNative
 from .common import same, show, opaque_obj
 
-EQ = 'pmutt.equilibrium._equilibrium.Equilibrium'
+EQ = 'pmutt.equilibrium.Equilibrium'        # the public path; the defining module is found through the re-export
 
 
 def build(I, repo, ns, ne):
